@@ -1,5 +1,5 @@
 import PnVerif.Lemmas.MetaTab
-import PnVerif.Spec.MetaSpec
+import PnVerif.Lemmas.MetaRefine
 /-
   C07 — metadata and namespace operations behave like a sequential model.
 
@@ -69,6 +69,101 @@ theorem name_id_agree {α : Type} [Named α] (h : Nat → Name → Nat) (size : 
     A.find h size (Named.name A.items[id]) = some id :=
   NArr.find_name inv id hid
 
+/-!
+  Part 2: every operation of the model (dispatcher checks + ncmpio driver + table maintenance,
+  Model/Meta.lean) refines the sequential reference model (plain lists, Spec/MetaSpec.lean), for
+  every hash function, every NFC function, every name-legality predicate (`Env`), every table size
+  ≥ 1, and — `meta_refines` — every program: any sequence of create / open / close / enddef / redef /
+  def_dim / def_var / put_att / rename_* / copy_att / del_att over any number of files.
+-/
+
+/-- `R E x y`: the model result `x` and the reference result `y` show the same abstract file, the
+    same error code / id, and the model file still satisfies `FInv` (all four kinds of tables
+    consistent, names pairwise distinct, header on disk well formed). -/
+theorem def_dim_refines (E : Env) (f : File) (raw : Name) (size : Int) (inv : FInv E f) :
+    R E (defDim E f raw size) (sDefDim E f.abs raw size) := defDim_refines E f raw size inv
+theorem rename_dim_refines (E : Env) (f : File) (dimid : Int) (raw : Name) (inv : FInv E f) :
+    R E (renameDim E f dimid raw) (sRenameDim E f.abs dimid raw) := renameDim_refines E f dimid raw inv
+theorem def_var_refines (E : Env) (f : File) (raw : Name) (xtype : Int) (dimids : List Int) (inv : FInv E f) :
+    R E (defVar E f raw xtype dimids) (sDefVar E f.abs raw xtype dimids) := defVar_refines E f raw xtype dimids inv
+theorem rename_var_refines (E : Env) (f : File) (varid : Int) (raw : Name) (inv : FInv E f) :
+    R E (renameVar E f varid raw) (sRenameVar E f.abs varid raw) := renameVar_refines E f varid raw inv
+/-- put_att: new attribute, overwrite smaller / equal / larger, define and data mode, `_FillValue` rules,
+    NC_ERANGE with the attribute still stored -/
+theorem put_att_refines (E : Env) (f : File) (varid : Int) (raw : Name) (isText : Bool) (xtype : Int)
+    (vals : List Int) (inv : FInv E f) :
+    R E (putAtt E f varid raw isText xtype vals) (sPutAtt E f.abs varid raw isText xtype vals) :=
+  putAtt_refines E f varid raw isText xtype vals inv
+theorem rename_att_refines (E : Env) (f : File) (varid : Int) (raw rawNew : Name) (inv : FInv E f) :
+    R E (renameAtt E f varid raw rawNew) (sRenameAtt E f.abs varid raw rawNew) :=
+  renameAtt_refines E f varid raw rawNew inv
+/-- del_att: ids and order after the deletion are those of the list with the element removed -/
+theorem del_att_refines (E : Env) (f : File) (varid : Int) (raw : Name) (inv : FInv E f) :
+    R E (delAtt E f varid raw) (sDelAtt E f.abs varid raw) := delAtt_refines E f varid raw inv
+/-- copy_att within a file, between variables, and between two files -/
+theorem copy_att_refines (E : Env) (fin : File) (varidIn : Int) (raw : Name) (fout : File) (varidOut : Int)
+    (same : Bool) (invIn : FInv E fin) (inv : FInv E fout) :
+    R E (copyAtt E fin varidIn raw fout varidOut same) (sCopyAtt E fin.abs varidIn raw fout.abs varidOut same) :=
+  copyAtt_refines E fin varidIn raw fout varidOut same invIn inv
+
+/-- open: whatever well-formed header is read, populate-at-open yields consistent tables and the
+    file shows exactly the header's lists -/
+theorem open_refines (E : Env) (c : Cfg) (s : SHdr) (rdonly : Bool) (wf : s.Wf)
+    (hd : 0 < c.hd) (hv : 0 < c.hv) (hg : 0 < c.hg) (ha : 0 < c.ha) :
+    (openFile E c s rdonly).abs = sOpen c.format s rdonly ∧ FInv E (openFile E c s rdonly) :=
+  openFile_refines E c s rdonly wf hd hv hg ha
+
+/-- `meta_refines`: every program, run from the empty world, returns the reference model's results
+    (error codes and ids, call by call), ends in a world whose abstraction is the reference model's
+    world (objects, ids, order, names, types, lengths, values; header content left on disk by close),
+    and every table of every open file is consistent at the end (hence after every prefix). -/
+theorem meta_refines (E : Env) (nslots : Nat) (ops : List MOp) (ok : ∀ op ∈ ops, op.ok) :
+    (wrun E (World.init nslots) ops).2 = (swrun E (SWorld.init nslots) ops).2 ∧
+    (wrun E (World.init nslots) ops).1.abs = (swrun E (SWorld.init nslots) ops).1 ∧
+    WInv E (wrun E (World.init nslots) ops).1 := by
+  have := wrun_refines E (World.init nslots) ops (init_winv E nslots) ok
+  rw [init_abs] at this
+  exact ⟨this.2.1, this.1, this.2.2⟩
+
+/-- in every reachable world every inquiry on every open file answers what the reference model
+    answers (lookup by name through the hash tables included) -/
+theorem inquiries_agree (E : Env) (nslots : Nat) (ops : List MOp) (ok : ∀ op ∈ ops, op.ok) (s : Nat) (f : File)
+    (hf : (wrun E (World.init nslots) ops).1.file s = some f) :
+    (∀ raw, inqDimid E f raw = sInqDimid E f.abs raw) ∧ (∀ raw, inqVarid E f raw = sInqVarid E f.abs raw) ∧
+    (∀ id, inqDim f id = sInqDim f.abs id) ∧ (∀ id, inqVar f id = sInqVar f.abs id) ∧
+    (∀ v, inqNatts f v = sInqNatts f.abs v) ∧ (∀ v n, inqAttname f v n = sInqAttname f.abs v n) ∧
+    (∀ v raw, inqAttid E f v raw = sInqAttid E f.abs v raw) ∧ (∀ v raw, inqAtt E f v raw = sInqAtt E f.abs v raw) ∧
+    (∀ v raw t, getAtt E f v raw t = sGetAtt E f.abs v raw t) := by
+  have inv := (meta_refines E nslots ops ok).2.2.files s f hf
+  exact ⟨fun raw => inqDimid_eq E f raw inv, fun raw => inqVarid_eq E f raw inv, fun id => inqDim_eq f id,
+         fun id => inqVar_eq f id, fun v => inqNatts_eq f v, fun v n => inqAttname_eq f v n,
+         fun v raw => inqAttid_eq E f v raw inv, fun v raw => inqAtt_eq E f v raw inv,
+         fun v raw t => getAtt_eq E f v raw t inv⟩
+
+/-- API-level `name_id_agree`: in every reachable world, asking for the id of the name that
+    inq_dim / inq_var report for an id gives that id back (NFC must be idempotent on stored names,
+    which holds for real NFC; for the identity `nfc` see the example below) -/
+theorem name_id_agree_api (E : Env) (nslots : Nat) (ops : List MOp) (ok : ∀ op ∈ ops, op.ok) (s : Nat) (f : File)
+    (hf : (wrun E (World.init nslots) ops).1.file s = some f) :
+    (∀ i (hi : i < f.hdr.dims.items.length), E.nfc f.hdr.dims.items[i].name = f.hdr.dims.items[i].name →
+        chkNameInq f.hdr.dims.items[i].name = 0 → inqDimid E f f.hdr.dims.items[i].name = (NC_NOERR, (i : Int))) ∧
+    (∀ i (hi : i < f.hdr.vars.items.length), E.nfc f.hdr.vars.items[i].name = f.hdr.vars.items[i].name →
+        chkNameInq f.hdr.vars.items[i].name = 0 → inqVarid E f f.hdr.vars.items[i].name = (NC_NOERR, (i : Int))) := by
+  have inv := (meta_refines E nslots ops ok).2.2.files s f hf
+  constructor
+  · intro i hi hn hc
+    have := NArr.find_name inv.dims i hi
+    simp only [inqDimid, hc, hn, ne_eq, not_true_eq_false, if_false]
+    show (match f.hdr.dims.find E.h f.cfg.hd (Named.name f.hdr.dims.items[i]) with
+          | some i => (NC_NOERR, (i : Int)) | none => (NC_EBADDIM, -1)) = _
+    rw [this]
+  · intro i hi hn hc
+    have := NArr.find_name inv.vars i hi
+    simp only [inqVarid, hc, hn, ne_eq, not_true_eq_false, if_false]
+    show (match f.hdr.vars.find E.h f.cfg.hv (Named.name f.hdr.vars.items[i]) with
+          | some i => (NC_NOERR, (i : Int)) | none => (NC_ENOTVAR, -1)) = _
+    rw [this]
+
 /-! ### non-vacuity: a concrete table with a collision (everything hashes to bucket 1 of 2) -/
 
 example : TabInv (fun _ _ => 1) 2 [[97], [98]] [[], [0, 1]] := by
@@ -78,8 +173,23 @@ example : TabInv (fun _ _ => 1) 2 [[97], [98]] [[], [0, 1]] := by
 
 example : hashDelete (fun _ _ => 1) 2 [[], [0, 1, 2]] [97] 0 = some [[], [0, 1]] := by decide
 
+/-- a program with colliding names (constant hash, table size 1 and 2), a delete that shifts ids and a
+    rename, run on model and reference model: the hypotheses of `meta_refines` are met -/
+def demoEnv : Env := ⟨fun _ _ => 7, id, fun _ => true⟩
+def demoOps : List MOp :=
+  [.create 0 ⟨1, 2, 1, 2, 5⟩, .defDim 0 [120] 3, .defDim 0 [121] 0, .defVar 0 [118] 4 [1, 0],
+   .putAtt 0 0 [97] false 4 [1, 2], .putAtt 0 0 [98] true 2 [104, 105], .putAtt 0 0 [99] false 1 [300],
+   .delAtt 0 0 [97], .renameAtt 0 0 [99] [100], .enddef 0, .renameVar 0 0 [119], .close 0,
+   .openF 0 2 1 2 1 true, .copyAtt 0 0 [100] 0 (-1)]
+example : ∀ op ∈ demoOps, op.ok := by decide
+example : (wrun demoEnv (World.init 1) demoOps).2.map Prod.fst = [0, 0, 0, 0, 0, 0, -60, 0, 0, 0, 0, 0, 0, -38] := by
+  decide
+
 def obligations : List String := [
   "hash_inv_empty", "hash_inv_insert", "hash_inv_delete", "hash_inv_replace", "hash_inv_copy",
-  "hash_inv_populate", "hash_inv_mem", "lookup_by_name_eq_spec", "name_id_agree"
+  "hash_inv_populate", "hash_inv_mem", "lookup_by_name_eq_spec", "name_id_agree",
+  "def_dim_refines", "rename_dim_refines", "def_var_refines", "rename_var_refines", "put_att_refines",
+  "rename_att_refines", "del_att_refines", "copy_att_refines", "open_refines", "meta_refines",
+  "inquiries_agree", "name_id_agree_api"
 ]
 end PnVerif.Props.C07
